@@ -156,6 +156,9 @@ def carrier(spec):
         return [carrier(s) for s in spec[1]]
     if k == 't':
         return tuple(carrier(s) for s in spec[1])
+    if k == 'x':
+        # an input type the library does not support (fault F2): must be rejected
+        return {'unsupported': 1} if not spec[1:] or spec[1] == 'dict' else {1, 2}
     if k == 'a':
         dt = np.dtype(spec[1])
         vals = [dy(n, e) for n, e in spec[3]]
